@@ -17,7 +17,7 @@
      abs st               the byte list of every buffer = concatenation of [m_first, m_last) of
                           its blocks, front block first (written out in c15_abs below)            *)
 From OlaBase Require Import Bytes.
-From C15 Require Import Model Spec ProofsBlock Proofs.
+From C15 Require Import Model Spec Sender ProofsBlock Proofs ProofsSender ProofsStream ProofsWrap Cross ProofsCross.
 Local Open Scope nat_scope.
 
 (* what "the bytes a buffer holds" means concretely *)
@@ -109,6 +109,120 @@ Theorem c15_iovec : forall bs nq ns ops st outs,
 Proof. exact iovec_thm. Qed.
 Print Assumptions c15_iovec.
 
+(* ================================================================== round 2 ===================
+   Sender.v: the extended state is the state above in which QUEUE 0 IS NonBlockingSender's private
+   m_output_buffer, plus m_associated and the select server's write registration.  xop adds
+   SendMessage(IOStack j) / SendMessage(IOQueue i) / PerformWrite with the kernel's answer as an
+   input (None = sendmsg/writev failed, Some k = it accepts at most k bytes) / LimitReached /
+   BigEndianInputStream(queue i) >> uintW / a MemoryBuffer with a script of reads; UOp o is any
+   operation of the application on the OTHER buffers (xop_ok: it never touches queue 0).
+   axrun is the specification: byte lists, plus two records written from the property text:
+   ax_queued = the contents of the messages SendMessage accepted, in order; ax_sent = the bytes
+   the descriptor accepted, in order. *)
+
+(* NonBlockingSender conserves.  For every block size, any buffers, any limit, EVERY history of
+   application operations, SendMessage calls, PerformWrite calls with ANY kernel answers (any
+   partial length, zero, more than offered, errors), LimitReached calls and stream reads:
+   no hazard; all outputs are the specification's; the bytes the descriptor accepted (sent_of
+   outs, read off the PerformWrite outputs) followed by the bytes still pending in the output
+   buffer are exactly the accepted messages in order - so what was sent is a prefix of what was
+   queued, nothing is sent twice or dropped, and when the buffer is empty everything queued has
+   been sent; a SendMessage refused by the limit leaves its message where it was (it is not in
+   ax_queued and the specification state is unchanged); the descriptor is registered for
+   writing exactly when bytes are pending; the pool accounting still holds. *)
+Theorem c15_sender_conserves : forall bs nq ns max ops,
+  1 <= bs -> 1 <= nq -> Forall (xop_ok nq ns) ops ->
+  exists x outs,
+    xrun max (xinit bs nq ns) ops = Ok (x, outs) /\
+    let ax := fst (axrun max (axinit nq ns) ops) in
+    let pending := abs_buf (nth 0 (s_q (x_st x)) []) in
+    map xout_abs outs = snd (axrun max (axinit nq ns) ops) /\
+    abs (x_st x) = ax_a ax /\
+    sent_of outs ++ pending = ax_queued ax /\
+    (pending = [] -> sent_of outs = ax_queued ax) /\
+    x_assoc x = negb (is_nil pending) /\ x_reg x = x_assoc x /\
+    inv bs nq ns (x_st x) /\
+    blocks_allocated (x_st x) = free_blocks (x_st x) + in_use (x_st x).
+Proof. exact sender_conserves. Qed.
+Print Assumptions c15_sender_conserves.
+
+(* Stream round trip.  In any state reached by any history, if queue i (not the sender's) is
+   empty, then writing any values of any widths with BigEndianOutputStream and reading the same
+   widths back with BigEndianInputStream succeeds (ok = true) with exactly the values written
+   (modulo 256^w, i.e. the value itself when it fits the type), for every block size, and leaves
+   the queue empty.  (The first |vals| outputs are the writes' void results.) *)
+Theorem c15_stream_roundtrip : forall bs nq ns max pre (vals : list (nat * N)) i x0 outs0,
+  1 <= bs -> 1 <= nq -> Forall (xop_ok nq ns) pre -> i < nq -> i <> 0 ->
+  xrun max (xinit bs nq ns) pre = Ok (x0, outs0) ->
+  abs_buf (nth i (s_q (x_st x0)) []) = [] ->
+  exists x1 outs,
+    xrun max x0 (map (fun wv => UOp (QWriteBE i (fst wv) (snd wv))) vals ++
+                 map (fun wv => QIn i (fst wv)) vals) = Ok (x1, outs) /\
+    map xout_abs outs =
+      map (fun _ => XUser ONone) vals ++
+      map (fun wv => XIn true (snd wv mod 256 ^ N.of_nat (fst wv))%N) vals /\
+    abs_buf (nth i (s_q (x_st x1)) []) = [].
+Proof. exact stream_roundtrip. Qed.
+Print Assumptions c15_stream_roundtrip.
+
+(* The same through a MemoryBuffer: over the serialised values (followed by anything) the reads
+   of the same widths return exactly each value's big-endian bytes, whose decoded value
+   (be_value, what NetworkToHost yields) is the value written. *)
+Theorem c15_membuf_roundtrip : forall (vals : list (nat * N)) rest,
+  mb_run (mb_new (concat (map (fun wv => be_bytes (fst wv) (snd wv)) vals) ++ rest))
+         (map (fun wv => MIn (fst wv)) vals) =
+  Ok (map (fun wv => be_bytes (fst wv) (snd wv)) vals) /\
+  forall w v, be_value (be_bytes w v) = (v mod 256 ^ N.of_nat w)%N.
+Proof. exact (fun vals rest => conj (membuf_roundtrip vals rest) be_value_bytes). Qed.
+Print Assumptions c15_membuf_roundtrip.
+
+(* A MemoryBuffer never reads outside its bytes, and every read (raw, string or >>) returns the
+   next min(n, remaining) bytes and consumes exactly those: a short >> consumes what is left. *)
+Theorem c15_membuf_total : forall d script, mb_run (mb_new d) script = Ok (mb_spec d script).
+Proof. exact mb_new_spec. Qed.
+Print Assumptions c15_membuf_total.
+
+(* `unsigned int`.  Size() as the code computes it (size32: a 32-bit sum over the blocks) is the
+   byte count modulo 2^32 after every history, and equals the byte count - and the unbounded
+   Size of c15_size - under the explicit guard "this buffer holds fewer than 2^32 bytes".
+   c15_sender_conserves needs no such guard: LimitReached is modelled with size32 and the
+   specification uses the same wrapped count (alen32), so conservation holds even if it wraps. *)
+Theorem c15_size32 : forall bs nq ns ops st outs bl,
+  1 <= bs -> Forall (op_ok nq ns) ops -> run (init bs nq ns) ops = Ok (st, outs) ->
+  In bl (s_q st ++ s_s st) ->
+  size32 bl = (N.of_nat (length (abs_buf bl)) mod 2 ^ 32)%N /\
+  ((N.of_nat (length (abs_buf bl)) < 2 ^ 32)%N ->
+   size32 bl = N.of_nat (length (abs_buf bl)) /\ size32 bl = N.of_nat (buf_size bl)).
+Proof. exact size32_thm. Qed.
+Print Assumptions c15_size32.
+
+(* What wraps when the guard is violated: a well-formed queue holding exactly 2^32 bytes
+   reports Size() = 0 although it is not Empty(), and a sender whose output buffer it is answers
+   LimitReached() = false for a limit of one byte. *)
+Example c15_size32_wraps :
+  let K := N.to_nat (2 ^ 32) in
+  wfbuf K [mkB K 0 K (repeat 0%N K)] /\
+  length (abs_buf [mkB K 0 K (repeat 0%N K)]) = K /\
+  size32 [mkB K 0 K (repeat 0%N K)] = 0%N /\
+  limit_reached 1 (mkS (p_new K) [[mkB K 0 K (repeat 0%N K)]] []) = Ok false.
+Proof. exact (wrap_witness (N.to_nat (2 ^ 32)) (N2Nat.id (2 ^ 32))). Qed.
+
+(* Buffers on DIFFERENT pools in one operation (all theorems above are about buffers sharing one
+   pool, which is how the state is built: that is their guard).  The code does not check, the
+   header only says the pools "should" be the same.  Faithful model of
+     qa(&A).Write(6 bytes); qb(&B).AppendMove(&qa); qb.Read(16); B.Purge()
+   with block sizes 4 and 8: the bytes still come out right, but the pool clause of the property
+   is false - A never gets its two blocks back, B ends up with two free blocks it never
+   allocated (allocated = free + held fails), and Purge() wraps B.BlocksAllocated() to 2^32 - 2.
+   Known finding C15-crosspool (no small safe fix: blocks do not know their pool). *)
+Theorem c15_crosspool_refuted :
+  exists c, cross_run 4 8 [1; 2; 3; 4; 5; 6]%N 16 = Ok c /\
+            c_read c = [1; 2; 3; 4; 5; 6]%N /\
+            (c_allocA c, c_freeA c) = (2, 0) /\ (c_allocB c, c_freeB c, c_heldB c) = (0, 2, 0) /\
+            cross_acct_ok c = false /\ c_allocB_purged c = 4294967294%N.
+Proof. exact crosspool_refuted. Qed.
+Print Assumptions c15_crosspool_refuted.
+
 (* ------------------------------------------------------------------ non-vacuity *)
 (* a history that satisfies every hypothesis above and exercises block boundaries, a stack to
    queue move, a string read, a clear with pool re-use and a purge (block size 2) *)
@@ -132,3 +246,24 @@ Proof. cbv. lia. Qed.
 
 Example ex_inv : inv 2 2 1 (init 2 2 1).
 Proof. exact (inv_init 2 2 1). Qed.
+
+(* round 2: a sender history that satisfies xop_ok: two messages, a refused third (limit 4),
+   partial writes of 0, 2 and "as much as there is", an error, a stream round trip *)
+Definition ex_xops : list xop :=
+  [UOp (SWrite 0 [1;2;3]%N); SendS 0; UOp (QWrite 1 [4;5]%N); SendQ 1; Limit;
+   UOp (SWrite 0 [9]%N); SendS 0; PWrite (Some 0); PWrite (Some 2); PWrite None; PWrite (Some 99);
+   SendS 0; PWrite (Some 1);
+   UOp (QWriteBE 1 2 258%N); UOp (QWriteBE 1 4 16909060%N); QIn 1 2; QIn 1 4; QIn 1 1;
+   MBuf [1;2;3]%N [MIn 2; MStr 5; MRead 1]].
+
+Example ex_xok : Forall (xop_ok 2 1) ex_xops.
+Proof. unfold ex_xops. repeat constructor. all: discriminate. Qed.
+
+Example ex_xrun :
+  exists x, xrun 4 (xinit 2 2 1) ex_xops =
+    Ok (x, [XUser ONone; XBool true; XUser ONone; XBool true; XBool true;
+            XUser ONone; XBool false; XSent (Some []); XSent (Some [1;2]%N); XSent None;
+            XSent (Some [3;4;5]%N); XBool true; XSent (Some [9]%N);
+            XUser ONone; XUser ONone; XIn true 258; XIn true 16909060; XIn false 0;
+            XMB [[1;2]; [3]; []]%N]).
+Proof. eexists. vm_compute. reflexivity. Qed.
